@@ -299,7 +299,29 @@ func TestC16(t *testing.T) {
 		vn := vnet.New()
 		used := map[int]bool{}
 		var chosen []*ids.Identity
-		if len(collide) > 0 && c.Bool("label.collision") {
+		// One case in four: a router with a privacy address and privacy-address
+		// peers inside its /16 (the only privacy addresses it keeps routes for).
+		// Two of them derive no switch label, two derive the same one, so that the
+		// fallbacks of the label assignment are taken.
+		privacyCluster := c.Weighted("cluster", 3, 1) == 1
+		if privacyCluster {
+			chosen = append(chosen, ids.Group("privacy16-hub")[0])
+			special := append(append([]*ids.Identity(nil), ids.Group("privacy16-collide")...), ids.Group("privacy16-nolabel")...)
+			plain := ids.Group("privacy16")
+			for len(chosen) < n+1 {
+				var id *ids.Identity
+				if c.Chance("cluster.special", 2, 3) {
+					id = special[c.Pick("cluster.sp", len(special))]
+				} else {
+					id = plain[c.Pick("cluster.pl", len(plain))]
+				}
+				if !used[id.Index] {
+					used[id.Index] = true
+					chosen = append(chosen, id)
+				}
+			}
+			c.Class("privacy-address-cluster")
+		} else if len(collide) > 0 && c.Bool("label.collision") {
 			g := collide[c.Pick("collide.group", len(collide))]
 			chosen = append(chosen, g[0], g[1])
 			used[g[0].Index], used[g[1].Index] = true, true
@@ -313,7 +335,7 @@ func TestC16(t *testing.T) {
 		}
 		// With a label collision the two colliding routers are both peers of node 0:
 		// put them at positions 1 and 2 (or 0 and 1 for n == 2... then they peer with each other).
-		if len(collide) > 0 && n >= 3 {
+		if len(collide) > 0 && n >= 3 && !privacyCluster {
 			chosen[0], chosen[2] = chosen[2], chosen[0]
 		}
 		for i := 0; i < n; i++ {
@@ -337,11 +359,39 @@ func TestC16(t *testing.T) {
 				if b >= a {
 					b++
 				}
+				if privacyCluster && c.Chance("ev.hub", 2, 3) {
+					// towards / from the hub, so that it collects several peers
+					if a == 0 {
+						return a, b
+					}
+					if c.Bool("ev.hub.dials") {
+						return 0, a
+					}
+					return a, 0
+				}
 				return a, b
 			}
-			kind := c.Weighted("event", 5, 4, 2, 2, 3, 3, 2, 2)
+			kind := c.Weighted("event", 5, 4, 2, 2, 3, 3, 2, 2, 3)
 			live := w.live()
-			if kind >= 4 && len(live) == 0 {
+			if kind >= 4 && kind <= 7 && len(live) == 0 {
+				kind = 0
+			}
+			// Link objects that were closed earlier (their reader, writer and the
+			// manager may each call Close on them again at any later time).
+			type staleEnd struct {
+				cc   *c16Conn
+				side int
+			}
+			var stale []staleEnd
+			for _, cc := range w.conns {
+				if cc.conn.A.Link != nil && cc.closed[0] {
+					stale = append(stale, staleEnd{cc, 0})
+				}
+				if cc.conn.B.Link != nil && cc.closed[1] {
+					stale = append(stale, staleEnd{cc, 1})
+				}
+			}
+			if kind == 8 && len(stale) == 0 {
 				kind = 0
 			}
 			lockstep := c.Chance("lockstep", 2, 3)
@@ -404,6 +454,15 @@ func TestC16(t *testing.T) {
 				if w.cross {
 					w.closedAfterCross = true
 				}
+			case 8: // Close called once more on a link object that is closed already
+				se := stale[c.Pick("stale.which", len(stale))]
+				e := se.cc.conn.A
+				if se.side == 1 {
+					e = se.cc.conn.B
+				}
+				w.log("repeated Close on the closed link object n%d->n%d side %d", se.cc.a, se.cc.b, se.side)
+				e.Link.Close(nil)
+				c.Class("repeated-close-of-closed-link")
 			default: // half-open: only one side notices
 				cc := live[c.Pick("half.which", len(live))]
 				side := c.Pick("half.side", 2)
